@@ -64,7 +64,7 @@ def run(ctx):
     n = 0
     for path, ws in sorted(by.items()):
         for w in ws:
-            facts = A.cmp_facts(f, w["bb"])
+            facts = H.facts_at(f, w["bb"])
             for nm, op, a_re, b_re in FACTS:
                 ok = A.has_fact(facts, op, a_re, b_re)
                 n += 1
